@@ -140,12 +140,20 @@ func ruleServerID(c *Ctx, prefix string) {
 			switch x := in.(type) {
 			case *ssa.Store:
 				if fa, ok := x.Addr.(*ssa.FieldAddr); ok && fieldName(fa) == "ServerIPAddr" && ex.Canon(st, fa.X).S == "$1" {
+					// the buffer stored may already hold the copy (filled before being attached), or be the identifier itself
+					v := ex.Canon(st, x.Val).S
+					if st.seen["copied:"+v] || v == g4.String() {
+						st.seen["siaddr-copy"] = true
+					}
 					return "siaddr-store"
 				}
 			case *ssa.Call:
 				if b, ok := x.Call.Value.(*ssa.Builtin); ok && b.Name() == "copy" {
 					if strings.HasPrefix(ex.Canon(st, x.Call.Args[0]).S, "$1.ServerIPAddr") && ex.Canon(st, x.Call.Args[1]).S == g4.String() {
 						return "siaddr-copy"
+					}
+					if ex.Canon(st, x.Call.Args[1]).S == g4.String() {
+						return "copied:" + strings.TrimSuffix(ex.Canon(st, x.Call.Args[0]).S, "[:]")
 					}
 				}
 				if f := x.Call.StaticCallee(); f != nil && f.Name() == "UpdateOption" && len(x.Call.Args) == 2 && ex.Canon(st, x.Call.Args[0]).S == "$1" {
